@@ -52,7 +52,8 @@ let rec parse_value (toks : string list) : value * string list =
           ftab := ((sci, bits), bytes_of_hex tok) :: ((true, bits), bytes_of_hex toke) :: !ftab;
           (VFloat (sci, z_of_string bits), rest)
         | _ -> failwith "bad float")
-     | 'S' -> (VStr (cps_of_string (body t)), rest)
+     | 'S' -> (VStr (false, cps_of_string (body t)), rest)
+     | 'R' -> (VStr (true, cps_of_string (body t)), rest)
      | 'A' ->
        let n = int_of_string (body t) in
        let rec go k toks acc = if k = 0 then (List.rev acc, toks) else
@@ -80,7 +81,7 @@ let rec show_value (b : Buffer.t) (v : value) : unit =
   | VBool false -> Buffer.add_string b "F"
   | VInt z -> Buffer.add_string b ("I" ^ string_of_z z)
   | VFloat (_, bits) -> Buffer.add_string b ("D" ^ string_of_z bits)
-  | VStr s -> Buffer.add_string b ("S" ^ string_of_cps s)
+  | VStr (raw, s) -> Buffer.add_string b ((if raw then "R" else "S") ^ string_of_cps s)
   | VArr l -> Buffer.add_string b (Printf.sprintf "A%d" (List.length l));
     List.iter (fun x -> Buffer.add_char b ' '; show_value b x) l
   | VHash (tn, fs) -> Buffer.add_string b (Printf.sprintf "H%s %d" (string_of_cps tn) (List.length fs));
